@@ -28,7 +28,7 @@ class C02(CmpProp):
     observe = ('eq', 'pcmp', 'cmp', 'hash')
     tag = 'bodies of all five comparison impls'
     rule = ('supertrait-closed trait sets x struct / enum-variant fields, each field carrying a combination from the 3136-grid '
-            'ACCEPTED for every derived trait, all key / by functions expressing one key (x % 3); thorough tier: every accepted '
+            'ACCEPTED for every derived trait, plus combinations the documentation refuses (outcome must be a refusal by derive_ex or coherent impls), all key / by functions expressing one key (x % 3); thorough tier: every accepted '
             'combination of the grid on a one-field and on a two-field struct for each trait set; compiled against the real '
             'proc-macro and checked MODEL-FREE for the laws on all pairs (triples for transitivity) of the cartesian value '
             'product: == <=> partial_cmp==Some(Equal) <=> cmp==Equal, partial_cmp==Some(cmp), == => identical hash feed, == '
@@ -43,6 +43,32 @@ class C02(CmpProp):
         G.KEY, G.BY = UKEY, UBY
         try:
             out = self.build_cases(tier, rng)
+            # combinations the documentation REFUSES for some derived trait: the property allows exactly two outcomes,
+            # a refusal by derive_ex or coherent impls - never an accepted, incoherent set
+            pools = {}
+            for k in range(160 if tier == 'quick' else 1500):
+                traits = SETS[k % len(SETS)]
+                if tuple(traits) not in pools:
+                    seen, pool = set(), []
+                    for c in G.all_combos():
+                        rc = G.relevant_combo(traits, c)
+                        t = tuple(sorted(rc.items()))
+                        if t not in seen and not G.accepted_for(traits, rc):
+                            seen.add(t)
+                            pool.append(rc)
+                    pools[tuple(traits)] = pool
+                pool = pools[tuple(traits)]
+                if not pool:
+                    continue
+                rc = rng.choice(pool)
+                fl = [('u8', rc), ('u8', {})] if k % 3 else [('u8', {}), ('u8', rc)]
+                is_enum = k % 4 == 0
+                variants = [(k % 2 == 0, fl)] + ([(False, [])] if is_enum else [])
+                name = 'E' if is_enum else 'X'
+                req = G.make_item(name, variants, is_enum, traits, 'attr' if k % 2 else 'derive')
+                feats = ['doc-refuses', 'traits:' + '+'.join(traits)] + ['%s(%s)' % (a, o) for a, o in rc.items() if o != '-']
+                out.append((req, dict(features=tuple(feats), nontrivial=True, traits=traits, variants=variants,
+                                      enum=is_enum, name=name, doc_refuses=True)))
             if tier == 'thorough':
                 # the whole accepted grid, one combination per single-field struct, per trait set
                 for traits in SETS:
@@ -76,8 +102,12 @@ class C02(CmpProp):
     def _oracle(self, tier, rng):
         results = self.l1_results or R.run_cases(self.cases(tier, rng))
         mods = []
+        refused = 0
         for r in results:
             m = r.meta
+            if m.get('doc_refuses') and any(p[0] == 'ERR' for p in r.actual):
+                refused += 1        # derive_ex refuses: one of the two outcomes the property allows
+                continue
             head = ('#[::derive_ex::derive_ex(%s)]\n' % r.attr) if r.mode == 'A' else '#[derive(::derive_ex::Ex)]\n'
             nf = max([len(fl) for _, fl in m['variants']] + [0])
             dom = [0, 1, 2, 3] if nf <= 2 else [0, 1, 3]
@@ -114,8 +144,8 @@ class C02(CmpProp):
                     samples.append(dict(input=r.input_text()[:400], laws_checked_on_pairs=n * n))
         for name, _ in batches:
             l2.cleanup(name)
-        return dict(evaluations=len(mods), validated=validated, programs=len(mods), pair_checks=checks,
-                    failures=failures, samples=samples)
+        return dict(evaluations=len(mods) + refused, validated=validated + refused, programs=len(mods), pair_checks=checks,
+                    refused_by_derive_ex=refused, failures=failures, samples=samples)
 
 
 def law_violation(o, n):
